@@ -210,6 +210,9 @@ func (a *aggregate) add(cd *CheckDef, r *Result) {
 func orchestrate() int {
 	t0 := time.Now()
 	prop := os.Getenv("VERIF_PROP")
+	if prop == "selftest-determinism" {
+		return selftestDeterminism()
+	}
 	cd := checks[prop]
 	if cd == nil {
 		fmt.Fprintln(os.Stderr, "unknown property", prop)
@@ -503,7 +506,7 @@ func writeReplay(cd *CheckDef, fv foundViolation, tier string, seed uint64) stri
 }
 
 // runOne executes one scenario in a fresh process and returns its result.
-func runOne(cd *CheckDef, sc *Scenario, timeout time.Duration) (*Result, string) {
+func runOne(cd *CheckDef, sc *Scenario, timeout time.Duration, extraEnv ...string) (*Result, string) {
 	tmp, err := os.MkdirTemp("", "vone-")
 	if err != nil {
 		return nil, err.Error()
@@ -513,7 +516,7 @@ func runOne(cd *CheckDef, sc *Scenario, timeout time.Duration) (*Result, string)
 	out := filepath.Join(tmp, "res.json")
 	os.WriteFile(in, sc.JSON(), 0o644)
 	bin := workerBin(cd, cd.NeedsRace || (sc.Sched != nil && sc.Sched.Race))
-	stderr, code, timedOut := runWorkerProc(bin, []string{"VERIF_MODE=one", "VERIF_SCENARIO=" + in, "VERIF_OUT=" + out, "VERIF_SCRATCH=" + tmp, "GORACE=halt_on_error=1 exitcode=66"}, timeout)
+	stderr, code, timedOut := runWorkerProc(bin, append([]string{"VERIF_MODE=one", "VERIF_SCENARIO=" + in, "VERIF_OUT=" + out, "VERIF_SCRATCH=" + tmp, "GORACE=halt_on_error=1 exitcode=66"}, extraEnv...), timeout)
 	b, err := os.ReadFile(out)
 	if err != nil {
 		r := &Result{Idx: sc.Idx, Status: "crash", Note: fmt.Sprintf("exit %d timeout=%v: %s", code, timedOut, firstLine(lastNonEmpty(stderr)))}
@@ -718,4 +721,116 @@ func runningModelFrame(dump string) string {
 		}
 	}
 	return ""
+}
+
+// selftestDeterminism: the same scenario executed in separate processes at GOMAXPROCS 1, 4 and 16, twice each,
+// must give the same observations (status, violations, counters, digest of all recorded streams and decisions).
+// Overlap-window scenarios (real parallelism inside a window) are compared on status and violations only.
+func selftestDeterminism() int {
+	t0 := time.Now()
+	n := envInt("VERIF_N", 4)
+	seeds := []uint64{envU64("VERIF_SEED", 1), envU64("VERIF_SEED", 1) + 1000}
+	tier := "quick"
+	var props []string
+	for p := range checks {
+		props = append(props, p)
+	}
+	sort.Strings(props)
+	if only := os.Getenv("VERIF_ONLY"); only != "" {
+		props = strings.Split(only, ",")
+	}
+	type job struct {
+		prop string
+		seed uint64
+		idx  int
+	}
+	var jobs []job
+	for _, p := range props {
+		cd := checks[p]
+		if cd == nil {
+			fmt.Fprintln(os.Stderr, "unknown property", p)
+			return 2
+		}
+		total := cd.Quick
+		for _, sd := range seeds {
+			for k := 0; k < n; k++ {
+				jobs = append(jobs, job{p, sd, (k * 7919) % total})
+			}
+			if cd.RaceFrac > 0 { // one scenario of the overlap stratum as well
+				jobs = append(jobs, job{p, sd, total - 1})
+			}
+		}
+	}
+	var mu sync.Mutex
+	bad := 0
+	runs := 0
+	// scenarios are generated up front, sequentially (the generator reads per-check globals)
+	scen := make([]*Scenario, len(jobs))
+	for i, j := range jobs {
+		cd := checks[j.prop]
+		genTotal, genRaceFrac = cd.Quick, cd.RaceFrac
+		raw := scenarioFor2(cd, j.seed, j.idx, tier)
+		var sc Scenario
+		if raw == nil || json.Unmarshal(raw, &sc) != nil {
+			bad++
+			fmt.Printf("SELFTEST: %s seed %d idx %d: scenario could not be generated\n", j.prop, j.seed, j.idx)
+			continue
+		}
+		if raw2 := scenarioFor2(cd, j.seed, j.idx, tier); string(raw2) != string(raw) {
+			bad++
+			fmt.Printf("NONDETERMINISM: %s seed %d idx %d: the generator produced two different scenarios\n", j.prop, j.seed, j.idx)
+		}
+		scen[i] = &sc
+	}
+	sem := make(chan struct{}, envInt("VERIF_WORKERS", 8))
+	var wg sync.WaitGroup
+	for i, j := range jobs {
+		if scen[i] == nil {
+			continue
+		}
+		wg.Add(1)
+		sem <- struct{}{}
+		go func(j job, sc Scenario) {
+			defer wg.Done()
+			defer func() { <-sem }()
+			cd := checks[j.prop]
+			overlap := sc.Sched != nil && len(sc.Sched.Overlap) > 0
+			var ref string
+			for _, gmp := range []string{"1", "4", "16", "16", "1"} {
+				r, _ := runOne(cd, &sc, oneTimeout(cd), "GOMAXPROCS="+gmp)
+				mu.Lock()
+				runs++
+				mu.Unlock()
+				if r == nil {
+					mu.Lock()
+					bad++
+					fmt.Printf("SELFTEST: %s seed %d idx %d GOMAXPROCS=%s: no result\n", j.prop, j.seed, j.idx, gmp)
+					mu.Unlock()
+					return
+				}
+				r.WallMS = 0
+				r.Sample = nil
+				if overlap {
+					r.Stats, r.Digest, r.Hash = nil, "", ""
+				}
+				delete(r.Stats, "decisions.wall")
+				b, _ := json.Marshal(r)
+				if ref == "" {
+					ref = string(b)
+				} else if string(b) != ref {
+					mu.Lock()
+					bad++
+					fmt.Printf("NONDETERMINISM: %s seed %d idx %d: GOMAXPROCS=%s differs from the first execution\n  first: %s\n  this : %s\n", j.prop, j.seed, j.idx, gmp, clip(ref, 600), clip(string(b), 600))
+					mu.Unlock()
+					return
+				}
+			}
+		}(j, *scen[i])
+	}
+	wg.Wait()
+	fmt.Printf("selftest-determinism: %d scenarios x 5 executions (GOMAXPROCS 1,4,16,16,1) = %d process runs, %d divergent, %.0fs\n", len(jobs), runs, bad, time.Since(t0).Seconds())
+	if bad > 0 {
+		return 2
+	}
+	return 0
 }
